@@ -37,16 +37,16 @@ Proof.
 Qed.
 
 Section TLProofs.
-  Variables (ns tin tout cname : atom) (tf : atom -> atom) (mapf : atom -> option atom).
+  Variables (ns tin tout cname : atom) (tf : atom -> atom) (mapf : atom -> option atom) (hook : atom -> option bool).
   Hypothesis Hty : tin <> tout.
 
   Notation kin := (kin ns tin).
   Notation kout := (kout ns tout).
   Notation tc := (tctrl ns tin tout cname).
   Notation owned := (owned_out ns tout cname).
-  Notation l_step := (l_step ns tin tout cname tf mapf).
-  Notation l_run := (l_run ns tin tout cname tf mapf).
-  Notation adv_in := (adv_in cname mapf).
+  Notation l_step := (l_step ns tin tout cname tf mapf hook).
+  Notation l_run := (l_run ns tin tout cname tf mapf hook).
+  Notation adv_in := (adv_in cname mapf hook).
   Notation adv_out := (adv_out cname).
 
   Lemma l_list_in now s : a_apply now tc (AList ns tin) s = (s, AOkList (st_list ns tin s)).
@@ -106,7 +106,8 @@ Section TLProofs.
     induction todo as [|inp rest IH]; intros a Ha; cbn [TransformList.adv_in]; [exact Ha|].
     destruct (mapf (r_id inp)) as [o|] eqn:Hm; [|apply IH; exact Ha].
     destruct (r_phase inp).
-    - apply IH. destruct (has_fin cname inp); [|exact Ha]. cbn [l_rems]. apply rems_wf_set; assumption.
+    - apply IH. destruct (has_fin cname inp); [|exact Ha]. destruct (hook (r_id inp)); [exact Ha|].
+      cbn [l_rems]. apply rems_wf_set; assumption.
     - destruct (has_fin cname inp); exact Ha.
   Qed.
 
@@ -306,7 +307,7 @@ End TLProofs.
    torn down while 8 runs: the cycle ends without a release and 7 keeps its finalizer.  Then 8 is torn down too: the
    output is torn down and destroyed, one release is issued in that cycle - for an input whose output is gone. *)
 Definition ex_map (x : atom) : option atom := Some 50.
-Definition ex_run (l : list lchoice) := l_run 1 2 3 4 (fun v => v + 100) ex_map (mkLS [] L0) l.
+Definition ex_run (l : list lchoice) := l_run 1 2 3 4 (fun v => v + 100) ex_map (fun _ => None) (mkLS [] L0) l.
 Definition ex_steps (n : nat) (sel : atom) : list lchoice := repeat (LStep 5 false sel) n.
 Definition ex_history : list lchoice :=
   [LEnv 1 (OpCreate (mkRes 1 2 7 None 0 false [] [] 0 0 70) 0); LEnv 1 (OpCreate (mkRes 1 2 8 None 0 false [] [] 0 0 80) 0)]
